@@ -42,13 +42,6 @@ def newRecs (before after : List Handler) : List (List String) :=
 def addRets (gs : List (List String)) (rs : List (Option Int)) : List (List String) :=
   (gs.zip rs).map fun (g, r) => match r with | some x => g ++ [s!"r{x}"] | none => g
 
-/-- specified return value of `handler->write` -/
-def specRet (h : Handler) (m : Msg) : Int :=
-  match h.kind, h.fmt with
-  | .cap, _ => 0
-  | _, none => -1
-  | _, some k => ((cut (formatted k m.hd m.payload)).length : Nat)
-
 def specGroup (h : Handler) (m : Msg) : List String :=
   if m.level ≥ h.level then (specRecs h m).map showRec ++ [s!"r{specRet h m}"] else []
 
@@ -168,7 +161,7 @@ def stepLine (st : St) : List String → St × String
     | 0, _, _, _ => (st, "bad-op")
     | _, some k, some l, some f =>
       let lg := if st.mode = 1 then st.lg else st.a.lg
-      if lg.handlers.length ≥ 10 then (st, "bad-op") else
+      if lg.handlers.length ≥ 10 ∨ (st.mode = 2 ∧ !st.a.gate) then (st, "bad-op") else
       match addHandler lg { kind := k, level := (Int.toInt32 l).toInt, fmt := f } with
       | none => (st, "full")
       | some lg' =>
@@ -180,7 +173,7 @@ def stepLine (st : St) : List String → St × String
     | 0, _, _ => (st, "bad-op")
     | _, some i, some l =>
       let lg := if st.mode = 1 then st.lg else st.a.lg
-      if i ≥ lg.handlers.length then (st, "bad-op") else
+      if i ≥ lg.handlers.length ∨ (st.mode = 2 ∧ !st.a.gate) then (st, "bad-op") else
       let lg' := { lg with handlers := lg.handlers.modify i (fun h => { h with level := (Int.toInt32 l).toInt }) }
       (if st.mode = 1 then { st with lg := lg' } else { st with a := { st.a with lg := lg' } }, "ok")
     | _, _, _ => (st, "bad-op")
